@@ -436,6 +436,60 @@ theorem library_roundtrip (l : Lib) (k : String) (m : MolRec) (hw : m.WF) (hno :
     rw [hget]
     cases h : l.get k' <;> simp [Ne.symm hne]
 
+/-! ### reading is a function of what is stored, not of what the caller did with earlier results -/
+
+/-- editing an object that was read earlier does not touch the library -/
+theorem edit_leaves_library {α : Type} (dec : MVal → α) (w : LWorld α) (j : Nat) (f : α → α) :
+    (lstep dec w (.edit j f)).1.lib = w.lib := rfl
+
+/-- "what is stored is what is read back", every time: the result of `lib[k]` is the decoding of the value stored
+under `k` - whatever objects the caller holds and however it has edited them -/
+theorem get_function_of_stored {α : Type} (dec : MVal → α) (w : LWorld α) (k : String) :
+    (lstep dec w (.get k)).2 = (w.lib.get k).map dec ∧ (lstep dec w (.get k)).1.lib = w.lib := by
+  simp only [lstep]
+  cases w.lib.get k <;> exact ⟨rfl, rfl⟩
+
+/-- reads and edits of the caller's objects, in any number and order, leave the library as it is -/
+theorem reads_and_edits_leave_library {α : Type} (dec : MVal → α) (ops : List (LOp α)) (w : LWorld α)
+    (h : ∀ op ∈ ops, LOp.isPut op = false) : (lrun dec w ops).1.lib = w.lib := by
+  induction ops generalizing w with
+  | nil => rfl
+  | cons o os ih =>
+    simp only [lrun]
+    rw [ih _ (fun op hop => h op (List.mem_cons_of_mem _ hop))]
+    have ho := h o List.mem_cons_self
+    cases o with
+    | put k wire => simp [LOp.isPut] at ho
+    | get k => exact (get_function_of_stored dec w k).2
+    | edit j f => rfl
+
+/-- **get after get equals get, independent of any caller-side mutation**: read `k`; then read other keys, read `k`
+again, edit in place any of the objects obtained so far (name, charge, coordinates, labels, attributes, weights, bond
+types - any function at all), in any order, in this or a later session; then read `k`: the same value as the first time. -/
+theorem reread_equals_first_read {α : Type} (dec : MVal → α) (w : LWorld α) (k : String) (ops : List (LOp α))
+    (h : ∀ op ∈ ops, LOp.isPut op = false) :
+    (lstep dec (lrun dec (lstep dec w (.get k)).1 ops).1 (.get k)).2 = (lstep dec w (.get k)).2 := by
+  rw [(get_function_of_stored dec _ k).1, (get_function_of_stored dec w k).1,
+    reads_and_edits_leave_library dec ops _ h, (get_function_of_stored dec w k).2]
+
+/-- instance: a MoleculeLibrary of the repository; the re-read after any caller-side edits is `normMol m` again -/
+theorem mol_reread_after_edits (l : Lib) (held : List (Except Err MolRec)) (k : String) (m : MolRec) (hw : m.WF)
+    (hno : NoOther m.atoms m.bonds) (hk : l.get k = none) (ops : List (LOp (Except Err MolRec)))
+    (h : ∀ op ∈ ops, LOp.isPut op = false) :
+    ∃ l', l.put k (serMol serMolV2 m) = some l' ∧
+      (lstep (deserMol deserMolV2) (lrun (deserMol deserMolV2) (lstep (deserMol deserMolV2) ⟨l', held⟩ (.get k)).1 ops).1 (.get k)).2
+        = some (.ok (normMol m)) := by
+  obtain ⟨l', hput, hget, _⟩ := library_roundtrip l k m hw hno hk
+  refine ⟨l', hput, ?_⟩
+  rw [reread_equals_first_read _ _ _ _ h, (get_function_of_stored _ _ k).1]
+  exact hget
+
+/-- non-vacuity: read, edit the object read (a caller-side function: here "replace by an error"), read again -/
+example : (lrun (deserMol deserMolV2) ⟨[("k", N (serMol serMolV2 sample))], []⟩
+    [.get "k", .edit 0 (fun _ => .error .type), .get "k"]).2.getLast? =
+    some (some (deserMol deserMolV2 (N (serMol serMolV2 sample)))) := by
+  simp [lrun, lstep, Lib.get]
+
 /-! ### down to the bytes in the file -/
 
 /-- msgpack's byte format (`Molli.Model.Msgpack`: smallest integer / length forms, float64, bin, str,
